@@ -4,7 +4,8 @@ Workload: generated pin-type assemblies (2-12 blocks, random heights / compositi
 unset values, zeros) mapped onto generated target meshes spanning the same height (coarser, finer, shifted, identical,
 nearly coincident points, single cell, random) with the real ``makeAssemWithUniformMesh`` / ``setAssemblyStateFromOverlaps``
 and a real ``ParamMapper`` in both directions; generated and repo test reactors through ``convert`` /
-``applyStateToOriginal`` and ``UniformMeshGenerator``; ``_filterMesh`` / ``average1DWithinTolerance`` /
+``applyStateToOriginal`` and ``UniformMeshGenerator`` (plus a mesh-generator-only workload over many cores x height
+perturbations x minimum sizes); ``_filterMesh`` / ``average1DWithinTolerance`` /
 ``resampleStepwise`` as pure functions.  Oracles are numpy one-liners over the harness's own overlap matrix.
 """
 import itertools
@@ -21,7 +22,16 @@ RULE = (
     "single, random, thin cell}; forward through makeAssemWithUniformMesh, backward through setAssemblyStateFromOverlaps onto the original; "
     "interval queries on getBlocksBetweenElevations/getBlockAtElevation; setBlockMesh/setHeight with mass conservation on/off/auto; "
     "generated hex cores (2-4 designs, perturbed heights, optional nonUniformAssemFlags / minimum mesh size) and the repo test reactors through "
-    "convert/applyStateToOriginal and the mesh generator; _filterMesh, average1DWithinTolerance, resampleStepwise on generated inputs. "
+    "convert/applyStateToOriginal and the mesh generator; a mesh-generator-only workload (generated cores x up to 3 successive height perturbations "
+    "{none, per assembly small/large, per design, outlier assemblies > 20 % off the mean} x 4 minimum sizes drawn around the gaps between anchored "
+    "material boundaries, between them and the core bottom/top, and between average-mesh points, incl. exactly a gap) judging: strictly increasing, "
+    "every point is an average-mesh point or an anchored boundary (first bottom / last top of the fuel/control blocks of a fuel/control assembly - "
+    "other block boundaries are not candidates), no cell incl. the first one [0, m0] thinner than the minimum, anchors kept when all are separated, "
+    "a refusal only when two of {anchors, z=0, core top} are closer than the minimum, a filtered average mesh = column mean of some set of assembly "
+    "meshes all within 20 % of it (subsets enumerated up to 16 rows); _filterMesh, average1DWithinTolerance, resampleStepwise on generated inputs. "
+    "NOT judged (counted under unjudged): an averaged parameter of a target cell that overlaps a mix of set and unset source values (the property "
+    "states no law for it; armi averages the set ones over the whole cell height), negative peak values, sub-EPS slivers, queries outside the assembly, "
+    "resampling cells that straddle the end of the input range. "
     "distinct = (layout kinds, mesh kind, cell count, parameter profile kinds, direction options); non-trivial = target mesh differs from source mesh."
 )
 TOLERANCES = {
@@ -38,16 +48,24 @@ TOLERANCES = {
 EXHAUSTIVE = {"quick": False, "thorough": False}
 EXHAUSTIVE_PART = ""
 FLOORS = {
-    "quick": {"atoms.forward": 600, "ndens.block": 600, "param.integrated.total": 600, "param.integrated.block": 3000, "param.averaged.block": 3000,
-              "param.constant": 150, "param.peak.block": 1500, "param.unset": 300, "roundtrip.atoms": 200, "roundtrip.integrated": 300,
-              "interval.partition": 3000, "blockAtElevation": 1500, "setBlockMesh": 100, "hook:Assembly.getBlocksBetweenElevations": 8000,
-              "filterMesh.post": 1500, "filterMesh.raise-iff": 1500, "average1D": 800, "resample.avg": 1500, "resample.sum": 1500,
-              "reactor.convert.atoms": 60, "reactor.apply.params": 60, "commonmesh.average": 10, "commonmesh.decusp": 10},
-    "thorough": {"atoms.forward": 12000, "ndens.block": 12000, "param.integrated.total": 12000, "param.integrated.block": 60000, "param.averaged.block": 60000,
-                 "param.constant": 3000, "param.peak.block": 30000, "param.unset": 6000, "roundtrip.atoms": 4000, "roundtrip.integrated": 6000,
-                 "interval.partition": 60000, "blockAtElevation": 30000, "setBlockMesh": 2000, "hook:Assembly.getBlocksBetweenElevations": 160000,
-                 "filterMesh.post": 30000, "filterMesh.raise-iff": 30000, "average1D": 16000, "resample.avg": 30000, "resample.sum": 30000,
-                 "reactor.convert.atoms": 1000, "reactor.apply.params": 1000, "commonmesh.average": 150, "commonmesh.decusp": 150},
+    "quick": {"atoms.forward": 600, "atoms.backward": 300, "ndens.block": 600, "ndens.untouched": 300, "mesh.applied": 500, "param.integrated.total": 600,
+              "param.integrated.block": 3000, "param.averaged.block": 3000, "param.averaged.integral": 2000, "param.constant": 150, "param.peak.block": 1500,
+              "param.peak.global": 1500, "param.unset": 300, "roundtrip.atoms": 200, "roundtrip.integrated": 300, "roundtrip.averaged": 500, "roundtrip.peak": 400,
+              "interval.partition": 3000, "blockAtElevation": 1500, "setBlockMesh": 100, "setHeight.conserve": 25, "adjustDensity.mass": 25,
+              "hook:Assembly.getBlocksBetweenElevations": 8000, "filterMesh.post": 1500, "filterMesh.raise-iff": 1500, "average1D": 800, "average1D.filtered": 100,
+              "resample.avg": 1500, "resample.sum": 1500, "reactor.convert.atoms": 60, "reactor.apply.params": 60, "reactor.convert.uniform": 6,
+              "reactor.nonuniform.restored": 12, "commonmesh.average": 60, "commonmesh.average.all-within": 50, "commonmesh.average.filtered": 10,
+              "commonmesh.average.filtered.subset": 8, "commonmesh.decusp": 150, "commonmesh.decusp.raise-iff": 200, "commonmesh.decusp.separated": 80,
+              "commonmesh.first-cell": 150, "commonmesh.candidates": 1200},
+    "thorough": {"atoms.forward": 12000, "atoms.backward": 6000, "ndens.block": 12000, "ndens.untouched": 6000, "mesh.applied": 10000, "param.integrated.total": 12000,
+                 "param.integrated.block": 60000, "param.averaged.block": 60000, "param.averaged.integral": 40000, "param.constant": 3000, "param.peak.block": 30000,
+                 "param.peak.global": 30000, "param.unset": 6000, "roundtrip.atoms": 4000, "roundtrip.integrated": 6000, "roundtrip.averaged": 10000,
+                 "roundtrip.peak": 8000, "interval.partition": 60000, "blockAtElevation": 30000, "setBlockMesh": 2000, "setHeight.conserve": 500,
+                 "adjustDensity.mass": 500, "hook:Assembly.getBlocksBetweenElevations": 160000, "filterMesh.post": 30000, "filterMesh.raise-iff": 30000,
+                 "average1D": 16000, "average1D.filtered": 2000, "resample.avg": 30000, "resample.sum": 30000, "reactor.convert.atoms": 1200,
+                 "reactor.apply.params": 1200, "reactor.convert.uniform": 120, "reactor.nonuniform.restored": 240, "commonmesh.average": 1200,
+                 "commonmesh.average.all-within": 1000, "commonmesh.average.filtered": 200, "commonmesh.average.filtered.subset": 160, "commonmesh.decusp": 3000,
+                 "commonmesh.decusp.raise-iff": 4000, "commonmesh.decusp.separated": 1600, "commonmesh.first-cell": 3000, "commonmesh.candidates": 24000},
 }
 TIMEOUT = {"quick": 900, "thorough": 7200}
 ASSUMPTIONS = [
@@ -69,7 +87,8 @@ def plan(tier, seed):
     out = [{"name": "asm%d" % i, "kind": "assemblies", "n": 150 if q else 3000} for i in range(8)]
     out += [{"name": "rx%d" % i, "kind": "reactors", "n": 12 if q else 240} for i in range(3)]
     out += [{"name": "testrx", "kind": "testreactors", "n": 3 if q else 40}]
-    out += [{"name": "pure%d" % i, "kind": "pure", "n": 900 if q else 18000} for i in range(4)]
+    out += [{"name": "pure%d" % i, "kind": "pure", "n": 2600 if q else 52000} for i in range(2)]
+    out += [{"name": "meshgen%d" % i, "kind": "meshgen", "n": 22 if q else 440} for i in range(2)]
     return out
 
 
@@ -83,6 +102,8 @@ def run_shard(spec, rec):
         do_reactors(spec, rec)
     elif spec["kind"] == "testreactors":
         do_testreactors(spec, rec)
+    elif spec["kind"] == "meshgen":
+        do_meshgen(spec, rec)
     else:
         do_pure(spec, rec)
 
@@ -781,6 +802,93 @@ def perturb_heights(rng, core, mode):
         a.calculateZCoords()
 
 
+def perturb_by_design(rng, core):
+    """All assemblies of one design get the same new block heights (designs expand differently): few distinct material boundaries."""
+    factors = {}
+    for a in core:
+        blocks = list(a)
+        f = factors.setdefault(a.getType(), [1 + rng.choice([.02, .1, .18]) * rng.uniform(-1, 1) for _ in blocks[:-1]])
+        hs = [b.getHeight() for b in blocks]
+        new = [h * x for h, x in zip(hs, f)]
+        last = sum(hs) - sum(new)
+        if last < 2.0:
+            continue
+        for b, h in zip(blocks, new + [last]):
+            b.p.height = h
+            b.clearCache()
+        a.calculateZCoords()
+
+
+def perturb_outliers(rng, core):
+    """A minority of assemblies gets a first block 30-80 % taller or shorter: their meshes are farther than 20 % from the mean."""
+    assems = list(core)
+    for a in rng.sample(assems, min(len(assems), rng.randint(1, max(1, len(assems) // 3)))):
+        blocks = list(a)
+        hs = [b.getHeight() for b in blocks]
+        h0 = hs[0] * (1 + rng.uniform(.3, .8) * rng.choice([-1, 1]))
+        last = hs[-1] - (h0 - hs[0])
+        if last < 2.0 or h0 < 2.0:
+            continue
+        for b, h in zip(blocks, [h0] + hs[1:-1] + [last]):
+            b.p.height = h
+            b.clearCache()
+        a.calculateZCoords()
+
+
+def pick_minimum_sizes(rng, r, avg, k):
+    """Minimum sizes around the gaps that decide the outcome: between anchored material boundaries (incl. exactly a gap), between them
+    and the core ends, between average-mesh points, plus the fixed list."""
+    ub, _ = material_bounds(r.core)
+    ends = sorted(set(ub) | {0.0, float(avg[-1])})
+    gaps_b = sorted({y - x for x, y in zip(ub, ub[1:]) if y - x > 1e-6})
+    gaps_e = sorted({y - x for x, y in zip(ends, ends[1:]) if y - x > 1e-6})
+    gaps_m = sorted({float(y - x) for x, y in zip(avg, avg[1:])} | {float(avg[0])})
+    out = []
+    for _ in range(k):
+        t = rng.random()
+        if t < .3 and gaps_b:
+            g = gaps_b[0] if rng.random() < .6 else rng.choice(gaps_b)
+            out.append(g * rng.choice([.5, .9, 1.0, 1.0, 1.1, 2.0]))
+        elif t < .45 and gaps_e:
+            out.append((gaps_e[0] if rng.random() < .6 else rng.choice(gaps_e)) * rng.choice([.5, .999, 1.0, 1.001, 1.5]))
+        elif t < .6:
+            out.append(rng.choice(gaps_m) * rng.choice([.5, .999, 1.0, 1.001, 1.5, 2.5]))
+        else:
+            out.append(rng.choice([.5, 1.0, 2.0, 3.0, 5.0, 8.0, 12.0, rng.uniform(.1, 15), rng.uniform(10, 45)]))
+    return [m for m in out if m > 0]
+
+
+def do_meshgen(spec, rec):
+    """Many cores x height perturbations x minimum sizes through the mesh generator only (cheap: nothing is converted)."""
+    from vlib import gen
+
+    for i in range(spec["n"]):
+        rng = random.Random("%s:%d" % (spec["rng"], i))
+        sp, w = rx_spec(rng)
+        w["case"] = i
+        try:
+            r, cs, bp, text = gen.build_reactor(sp)
+        except Exception as e:
+            rec.crash("build-reactor", e, w)
+            continue
+        history = []
+        for rnd in range(3):
+            mode = rng.choice(["none", "bydesign", "bydesign"] if rnd == 0 else ["small", "large", "bydesign", "outlier", "outlier"])
+            history.append(mode)
+            if mode == "bydesign":
+                perturb_by_design(rng, r.core)
+            elif mode == "outlier":
+                perturb_outliers(rng, r.core)
+            else:
+                perturb_heights(rng, r.core, mode)
+            ww = dict(w, perturbations=list(history), block_heights={a.getName(): [b.getHeight() for b in a] for a in r.core})
+            avg = average_case(rec, r, ww)
+            if avg is None:
+                continue
+            for m in pick_minimum_sizes(rng, r, avg, 4):
+                decusp_case(rec, r, m, avg, ww)
+
+
 def fine_mesh(a):
     pts, z = [], 0.0
     for b in a:
@@ -840,13 +948,33 @@ def do_testreactors(spec, rec):
             one_remesh_case(rec, rng, a, [b.getType() for b in a], hs, "%s-%d-%s" % (which, i, a.getName()), sample_ok=False)
 
 
-def reactor_case(rec, rng, r, cs, w, sample=False):
+def mean_of_rows_within_tolerance(rows, avg, tol, slack, abs_tol):
+    """Is `avg` the column mean of some set K of rows that all lie within `tol` (relative) of it?  Brute force over the subsets of the
+    rows that are within tol of avg (rows farther away cannot belong to K). None: too many rows to enumerate."""
+    C = rows[(np.abs(rows - avg) / avg).max(axis=1) <= tol * (1 + slack) + abs_tol / avg.min()]
+    n = len(C)
+    if n == 0:
+        return False
+    if n > 16:
+        return None
+    for lo in range(1, 2 ** n, 4096):
+        masks = np.arange(lo, min(lo + 4096, 2 ** n))
+        sel = ((masks[:, None] >> np.arange(n)[None, :]) & 1).astype(float)
+        means = (sel @ C) / sel.sum(axis=1)[:, None]
+        hit = np.all(np.abs(means - avg) <= abs_tol, axis=1)
+        for k in np.nonzero(hit)[0]:
+            K = C[sel[k] > 0]
+            if (np.abs(K - means[k]) / means[k]).max() <= tol * (1 + slack) + abs_tol / avg.min():
+                return True
+    return False
+
+
+def average_case(rec, r, w):
+    """_computeAverageAxialMesh against the column mean of the harness's own fine meshes. Returns the average mesh or None."""
     from armi.reactor.converters import uniformMesh as um
-    from armi.reactor.flags import Flags
     from vlib.env import quiet
 
     core = r.core
-    # ------------------------------------------------------------------ average mesh
     avg = None
     try:
         g = um.UniformMeshGenerator(r, None)
@@ -863,12 +991,21 @@ def reactor_case(rec, rng, r, cs, w, sample=False):
         if avg.shape != mean.shape or np.any(np.diff(np.concatenate([[0.0], avg])) <= 0):
             rec.violation("commonmesh/average-not-increasing-or-wrong-length", "average mesh %r for %d-point reference assembly" % (avg.tolist(), nref), ww)
         elif dev.max() < .2 * (1 - 1e-6):
+            rec.hit("commonmesh.average.all-within")
             if np.any(np.abs(avg - mean) > TOLERANCES["avgmesh_abs"]):
                 rec.violation("commonmesh/average-differs-from-column-mean", "every assembly mesh is within 20%% of the mean, yet average mesh %r != column mean %r" % (avg.tolist(), mean.tolist()), ww)
         else:
             rec.hit("commonmesh.average.filtered")
             if np.any(avg < rows.min(axis=0) - TOLERANCES["avgmesh_abs"]) or np.any(avg > rows.max(axis=0) + TOLERANCES["avgmesh_abs"]):
                 rec.violation("commonmesh/average-outside-range-of-assembly-meshes", "average mesh %r outside [min,max] of the assembly meshes" % avg.tolist(), ww)
+            else:
+                ok = mean_of_rows_within_tolerance(rows, avg, .2, 1e-6, TOLERANCES["avgmesh_abs"])
+                if ok is None:
+                    rec.skip("filtered average mesh over more than 16 near assembly meshes: subset oracle not enumerated (range check only)")
+                else:
+                    rec.hit("commonmesh.average.filtered.subset")
+                    if not ok:
+                        rec.violation("commonmesh/average-not-the-mean-of-meshes-within-tolerance", "average mesh %r is not the column mean of any set of assembly meshes that all lie within 20%% of it" % avg.tolist(), dict(ww, rows_list=rows.tolist()))
     except ValueError as e:
         if "Nothing was near the mean" in str(e):
             rec.reject("average mesh refused: no assembly mesh within 20% of the mean")
@@ -876,6 +1013,12 @@ def reactor_case(rec, rng, r, cs, w, sample=False):
             rec.crash("computeAverageAxialMesh", e, w)
     except Exception as e:
         rec.crash("computeAverageAxialMesh", e, w)
+    return avg
+
+
+def reactor_case(rec, rng, r, cs, w, sample=False):
+    # ------------------------------------------------------------------ average mesh
+    avg = average_case(rec, r, w)
     # ------------------------------------------------------------------ decusped mesh
     minsize = rng.choice([.5, 1.0, 2.0, 3.0, 5.0, 8.0, 12.0, rng.uniform(.1, 15)])
     if avg is not None:
@@ -885,9 +1028,12 @@ def reactor_case(rec, rng, r, cs, w, sample=False):
     use_min = rng.random() < .4
     if use_min:
         news["uniformMeshMinimumSize"] = min(minsize, 3.0)
-    nonuni = rng.random() < .35
+    nonuni = rng.random() < .45
     if nonuni:
-        news["nonUniformAssemFlags"] = [rng.choice(["control", "reflector", "shield", "feed fuel", "primary control"])]
+        pool = ["control", "reflector", "shield", "feed fuel", "primary control"]
+        names = {a.getType() for a in r.core}
+        present = [f for f in pool if any(f in n for n in names)]  # a flag group that matches nothing exercises nothing
+        news["nonUniformAssemFlags"] = [rng.choice(present if present and rng.random() < .85 else pool)]
     gamma = rng.random() < .35
     w = dict(w, settings=news, converter="Gamma" if gamma else "Neutronics")
     try:
@@ -898,35 +1044,47 @@ def reactor_case(rec, rng, r, cs, w, sample=False):
     convert_case(rec, rng, r, cs2, gamma, nonuni, w, sample)
 
 
-def decusp_case(rec, r, minsize, avg, w):
-    from armi.reactor.converters import uniformMesh as um
+def material_bounds(core):
+    """Anchored material boundaries, from the property statement: per fuel (then control) assembly the bottom of its first and the
+    top of its last fuel (control) block. Returns (sorted unique list, fuel blocks of fuel assemblies)."""
     from armi.reactor.flags import Flags
-    from vlib.env import quiet
 
-    core = r.core
-    bounds, cands = [], set(float(x) for x in avg)
+    bounds = []
     for fl in (Flags.FUEL, Flags.CONTROL):
         for a in core:
             if not a.hasFlags(fl):
                 continue
-            for b in a:
-                cands.add(b.p.zbottom)
-                cands.add(b.p.ztop)
             fb = [b for b in a if b.hasFlags(fl)]
             if fb:
                 bounds += [fb[0].p.zbottom, fb[-1].p.ztop]
-    ub = sorted(set(bounds))
-    separated = all(abs(y - x) >= minsize for x, y in zip(ub, ub[1:]))
     fuel_b = [b for a in core if a.hasFlags(Flags.FUEL) for b in a if b.hasFlags(Flags.FUEL)]
+    return sorted(set(bounds)), fuel_b
+
+
+def decusp_case(rec, r, minsize, avg, w):
+    from armi.reactor.converters import uniformMesh as um
+    from vlib.env import quiet
+
+    core = r.core
+    ub, fuel_b = material_bounds(core)
+    # candidate points (property: "uses only candidate points"): the average mesh plus the anchored material boundaries - NOT every
+    # block boundary of a fuel/control assembly
+    cands = set(float(x) for x in avg) | set(ub)
+    separated = all(abs(y - x) >= minsize for x, y in zip(ub, ub[1:]))
+    # the bottom (z=0) and the top of the core are boundaries no mesh can drop: a material anchor closer than the minimum to either
+    # is "two anchors closer than the minimum" as well, so refusing loudly is an allowed outcome there
+    ends = sorted(set(ub) | {0.0, float(avg[-1])})
+    separated_ends = all(abs(y - x) >= minsize for x, y in zip(ends, ends[1:]))
     ww = dict(w, minimumMeshSize=minsize, average_mesh=avg.tolist(), material_boundaries=ub)
     g = um.UniformMeshGenerator(r, minsize)
     try:
         with quiet():
             g.generateCommonMesh()
     except ValueError as e:
+        rec.hit("commonmesh.decusp.raise-iff")
         if "anchor" in str(e):
-            if separated:
-                rec.violation("commonmesh/raised-although-anchors-separated", "generateCommonMesh raised %s although all material boundaries are >= %r apart" % (str(e)[:120], minsize), ww)
+            if separated_ends:
+                rec.violation("commonmesh/raised-although-anchors-separated", "generateCommonMesh raised %s although all material boundaries, the core bottom and the core top are >= %r apart" % (str(e)[:120], minsize), ww)
             else:
                 rec.reject("common mesh refused: two anchors closer than the minimum")
         else:
@@ -938,16 +1096,20 @@ def decusp_case(rec, r, minsize, avg, w):
     out = [float(x) for x in g._commonMesh]
     ww["common_mesh"] = out
     rec.hit("commonmesh.decusp")
+    rec.hit("commonmesh.decusp.raise-iff")
     if any(y <= x for x, y in zip(out, out[1:])):
         rec.violation("commonmesh/not-strictly-increasing", "common mesh %r" % out, ww)
+    rec.hit("commonmesh.candidates", len(out))
     if any(x not in cands for x in out):
-        rec.violation("commonmesh/point-not-a-candidate", "common mesh %r holds points that are neither average-mesh points nor fuel/control block boundaries" % out, ww)
+        rec.violation("commonmesh/point-not-a-candidate", "common mesh %r holds points %r that are neither average-mesh points nor anchored material boundaries (first bottom / last top of the fuel or control blocks of a fuel or control assembly)" % (out, [x for x in out if x not in cands]), ww)
     if any(abs(y - x) < minsize for x, y in zip(out, out[1:])):
         rec.violation("commonmesh/cell-thinner-than-minimum", "common mesh %r has a cell thinner than %r" % (out, minsize), ww)
     if out and out[0] <= 0.0:
         rec.violation("commonmesh/zero-elevation-kept-as-mesh-point", "common mesh %r starts at %r: the bottom of a fuel/control column at z=0 became a mesh point (zero-height first cell)" % (out, out[0]), ww)
-    elif out and out[0] < minsize:
-        rec.skip("first cell [0, m0] thinner than the minimum (0 is not a point the filter sees): observed, not judged")
+    elif out:
+        rec.hit("commonmesh.first-cell")
+        if out[0] < minsize:  # the mesh holds cell tops: the first cell is [0, out[0]]
+            rec.violation("commonmesh/first-cell-thinner-than-minimum", "common mesh %r: the first cell [0, %r] is thinner than the requested minimum %r (the core bottom z=0 is never shown to the filter)" % (out, out[0], minsize), ww)
     if out and abs(out[-1] - avg[-1]) > 1e-7:
         rec.violation("commonmesh/top-elevation-dropped", "common mesh %r no longer ends at the top %r of the average mesh" % (out, float(avg[-1])), ww)
     if fuel_b:
